@@ -139,6 +139,12 @@ func runC09(c E1Case) (out core.Outcome) {
 		out.Inconclusive = "panic escaped an API call: " + msg
 		return
 	}
+	if ov := r.tr.WriteOverlap(); ov != "" {
+		// a transport is not safe for concurrent use (the shipped ones are bufio writers over a connection): a Flush by
+		// one writer during a Write by another one duplicates, drops or splits message bytes on a real transport
+		out.Violation = core.Viol("C09/transport-write-calls-overlap", "%s: the writers are not serialised around the whole transport access", ov)
+		return
+	}
 	for _, cl := range r.calls {
 		if cl.Op.Op == "write" {
 			r.cls.Add("carrier:%s", cl.Op.Carrier)
